@@ -578,7 +578,8 @@ class GridBase(metaclass=ABCMeta):
         if axes_bounds is None:
             axes_bounds = self.axes_bounds
 
-        diff = np.atleast_1d(x2) - np.atleast_1d(x1)
+        # (floating-point differences, since the wrapped values are written back below)
+        diff = np.asarray(np.atleast_1d(x2) - np.atleast_1d(x1), dtype=np.double)
         assert diff.shape[-1] == self.dim
 
         for i, per in enumerate(periodic):
